@@ -74,6 +74,11 @@ def build_inputs(tier, seed):
         # last position could never witness a difference
         secs = [[body() for k in range(n)] + [closing[(i + j) % len(closing)]] for j, n in enumerate(sh)]
         inputs.append({"name": "synth%d" % i, "doc": pipedoc.make_doc(secs), "synth": True, "desc": secs})
+    # two contracts with one short name in different files: block names (and so log keys) are derived from the short name
+    da = pipedoc.make_doc([["PUSH 1 PUSH 2 ADD ADD"], ["PUSH 0 ADD PUSH 1 MUL"]], "verif/a.sol:T")
+    db = pipedoc.make_doc([["SWAP1 POP PUSH 0 ADD PUSH 0 ADD"], ["DUP1 SWAP1 POP PUSH 5 PUSH 7 MUL ADD"]], "verif/b.sol:T")
+    da["contracts"].update(db["contracts"])
+    inputs.append({"name": "samename", "doc": da, "synth": True, "samename": True, "desc": "two contracts named T in a.sol and b.sol"})
     files = sorted(corpus.example_files(), key=os.path.getsize)[:1 if tier == "quick" else 3]
     for f in files:
         with open(f) as fh:
@@ -328,7 +333,7 @@ def run(tier):
     todo = []
     for i, (inp, opts) in enumerate(pairs):
         log = rts[i]["log"]
-        if not log or (tier == "thorough" and i % 3):      # thorough: every third (input, options) pair is mutated
+        if not log or inp.get("samename") or (tier == "thorough" and i % 3):      # thorough: every third (input, options) pair is mutated
             continue
         entries = log_entries(log, names[i])
         last = len(entries) if inp["synth"] else min(len(entries), 2 if tier == "quick" else 14)
@@ -457,7 +462,7 @@ def run(tier):
             same = m["r"]["file"] and rts[m["pair"]]["out1"] is not None and \
                 pipetrace.file_blocks(m["r"]["out_doc"]) == pipetrace.file_blocks(json.loads(rts[m["pair"]]["out1"]))
             if cl != "accepted" or not same:
-                flag("replay of the untampered log (in-process) is not reproduced: " + inp["name"], "ReplayReproduces",
+                flag("roundtrip: two contracts with one short name" if inp.get("samename") else "replay of the untampered log (in-process) is not reproduced: " + inp["name"], "ReplayReproduces",
                      dict(info, outcome=cl, raised=m["r"]["raised"], doc=inp["doc"] if inp["synth"] else inp["desc"], log=rts[m["pair"]]["log"]))
             continue
         if cl == "accepted":
@@ -502,7 +507,7 @@ def run(tier):
         elif cl.startswith("undecided"):
             n_rt_und += 1
         else:
-            flag("%s [%s %s]" % (cl, inp["name"], " ".join(opts)), cl,
+            flag("roundtrip: two contracts with one short name" if inp.get("samename") else "%s [%s %s]" % (cl, inp["name"], " ".join(opts)), cl,
                  {"input": inp["name"], "options": opts, "rc1": rts[i]["rc1"], "rc2": rts[i]["rc2"], "err": rts[i]["err1"] or rts[i]["err2"],
                   "doc": inp["doc"] if inp["synth"] else inp["desc"], "log": rts[i]["log"], "via": "cli"})
     t_pre = time.time() - t0
